@@ -707,6 +707,8 @@ namespace
             if (!faults && tier == QUICK && r.chance(1, 25)) maxlen = 520; // pieces of 256 bytes and more
             int enc = (int)r.below(ENC_N);
             int nframes = (int)r.range(faults ? 2 : 1, faults ? 6 : 5);
+            bool longrun = r.chance(1, 40); // a long session: what only accumulates over hundreds of frames on one receiver
+            if (longrun) { nframes = (int)r.range(60, 150); maxlen = std::min(maxlen, 48); }
             std::vector<Bytes> pls;
             size_t longest = 0;
             for (int i = 0; i < nframes; i++)
@@ -736,7 +738,7 @@ namespace
             p.cfg.push_back(r.chance(1, 3) ? (int64_t)r.below(6) : 0);
             p.cfg.push_back(r.chance(1, 4) ? (int64_t)r.range(1, 23) : 0);
             p.cfg.push_back((int64_t)r.below(2));
-            bool sweep = faults && r.chance(1, 3) && longest <= 200;
+            bool sweep = faults && r.chance(1, 3) && longest <= 200 && !longrun;
             if (faults && r.chance(1, 3))
             {
                 // garbage prefix
